@@ -673,7 +673,7 @@ impl Property for P13 {
     fn random_runs(tier: Tier) -> u64 {
         match tier {
             Tier::Quick => 100_000,
-            Tier::Thorough => 4_000_000,
+            Tier::Thorough => 10_000_000,
         }
     }
 
